@@ -22,8 +22,12 @@ func init() {
 		Assumptions: []string{"index.Index.GetAll calls the callback for every candidate offset until it returns false"},
 		Rules: []RuleDef{
 			{ID: "R07a", Floor: 3, Doc: "FindCid callback: found only behind the CID/multihash confirmation; mismatches continue", Run: ruleR07a},
-			{ID: "R07b", Floor: 5, Doc: "positional agreement of the five FindCid call sites", Run: ruleR07b},
+			{ID: "R07b", Floor: 4, Doc: "positional agreement of the five FindCid call sites", Run: ruleR07b},
 			{ID: "R07c", Floor: 2 + 3, Doc: "payload window and index source in NewReadOnly/OpenReadable; options forwarded to option-taking callees", Run: ruleR07c},
+			{ID: "R07e", Floor: 1, Doc: "a caller-supplied index is used as given (never replaced by an embedded or generated one)", Run: ruleR07e},
+			{ID: "R07g", Floor: 2, Doc: "the insertion index keeps records with equal digests side by side (= R03f)", Run: ruleR03f},
+			{ID: "R07h", Floor: 1, Doc: "InsertionIndex.GetAll offers every record with the key's digest (= R03g)", Run: ruleR03g},
+			{ID: "R07f", Floor: 1, Doc: "index generation loads the index once (= R03h)", Run: ruleR03h},
 			{ID: "R07d", Floor: 2 + 1, Doc: "key flattening polarity in both AllKeysChan; every scanned key is sent", Run: ruleR07d},
 		},
 	})
@@ -193,58 +197,71 @@ func ruleR07a(c *Ctx, r *Report) {
 }
 
 func ruleR07b(c *Ctx, r *Report) {
-	type site struct {
-		spec    fnSpec
-		backing string
-		typ     string
+	// every call site of store.FindCid in the two front-end packages (the methods may share helpers)
+	n := 0
+	for _, fn := range c.RepoFuncs() {
+		if fn.Pkg == nil || (fn.Pkg.Pkg.Path() != pkgBS && fn.Pkg.Pkg.Path() != pkgStorage) {
+			continue
+		}
+		ord := 0
+		for _, call := range callsToFunc(fn, pkgStore, "", "FindCid") {
+			ord++
+			n++
+			key := fmt.Sprintf("findcid-args@%s#%d", fnKey(fn), ord)
+			a := call.Common().Args
+			bad := ""
+			isBacking := loadsField(canon(stripIface(a[0])), pkgBS, "ReadOnly", "backing") || loadsField(canon(stripIface(a[0])), pkgStorage, "StorageCar", "reader")
+			isIdx := loadsField(canon(stripIface(a[1])), pkgBS, "ReadOnly", "idx") || loadsField(canon(stripIface(a[1])), pkgStorage, "StorageCar", "idx")
+			switch {
+			case !isBacking:
+				bad = "argument 1 is not the payload-relative backing reader of the store"
+			case !isIdx:
+				bad = "argument 2 is not the store's index"
+			case !loadsField(canon(a[3]), modV2, "Options", "BlockstoreUseWholeCIDs"):
+				bad = "argument 4 (useWholeCids) is not Options.BlockstoreUseWholeCIDs"
+			case !loadsField(canon(a[4]), modV2, "Options", "ZeroLengthSectionAsEOF"):
+				bad = "argument 5 (zeroLenAsEOF) is not Options.ZeroLengthSectionAsEOF"
+			case !loadsField(canon(a[5]), modV2, "Options", "MaxAllowedSectionSize"):
+				bad = "argument 6 is not Options.MaxAllowedSectionSize"
+			}
+			if bad == "" {
+				if _, ok := constBool(a[6]); !ok {
+					if _, isParam := canon(a[6]).(*ssa.Parameter); !isParam {
+						bad = "argument 7 (readBytes) is neither a constant nor a pass-through parameter"
+					}
+				}
+			}
+			if bad == "" {
+				okKey := false
+				for _, o := range origins(a[2], originOpts{}) {
+					if o.Kind == "param" || (o.Kind == "call" && funcIs(o.Fn, pkgCid, "", "Cast")) {
+						okKey = true
+					}
+				}
+				if !okKey {
+					bad = "argument 3 is not the key being looked up"
+				}
+			}
+			r.Check(bad == "", key, c.Pos(call.Pos()), "(backing, idx, key, UseWholeCIDs, ZeroLengthSectionAsEOF, MaxAllowedSectionSize, const)", bad)
+		}
 	}
-	for _, s := range []site{
-		{fnSpec{pkgBS, "ReadOnly", "Has"}, "backing", "ReadOnly"}, {fnSpec{pkgBS, "ReadOnly", "Get"}, "backing", "ReadOnly"}, {fnSpec{pkgBS, "ReadOnly", "GetSize"}, "backing", "ReadOnly"},
-		{fnSpec{pkgStorage, "StorageCar", "Has"}, "reader", "StorageCar"}, {fnSpec{pkgStorage, "StorageCar", "GetStream"}, "reader", "StorageCar"},
-	} {
-		fn, err := c.Func(s.spec.pkg, s.spec.recv, s.spec.name)
+	r.Count("store.FindCid call sites in blockstore and storage", n)
+	// each lookup method reaches FindCid (directly or through a same-type helper)
+	for _, s := range []fnSpec{{pkgBS, "ReadOnly", "Has"}, {pkgBS, "ReadOnly", "Get"}, {pkgBS, "ReadOnly", "GetSize"}, {pkgStorage, "StorageCar", "Has"}, {pkgStorage, "StorageCar", "GetStream"}} {
+		fn, err := c.Func(s.pkg, s.recv, s.name)
 		if err != nil {
 			r.InfraFail("%v", err)
 			continue
 		}
-		key := "findcid-args@" + fnKey(fn)
-		calls := callsToFunc(fn, pkgStore, "", "FindCid")
-		if len(calls) != 1 {
-			r.Viol(key, c.Pos(fn.Pos()), fmt.Sprintf("expected exactly one store.FindCid lookup, found %d", len(calls)))
-			continue
-		}
-		a := calls[0].Common().Args
-		bad := ""
-		switch {
-		case !loadsField(canon(stripIface(a[0])), s.spec.pkg, s.typ, s.backing):
-			bad = "argument 1 is not the payload-relative backing reader of the store"
-		case !loadsField(canon(stripIface(a[1])), s.spec.pkg, s.typ, "idx"):
-			bad = "argument 2 is not the store's index"
-		case !loadsField(canon(a[3]), modV2, "Options", "BlockstoreUseWholeCIDs"):
-			bad = "argument 4 (useWholeCids) is not Options.BlockstoreUseWholeCIDs"
-		case !loadsField(canon(a[4]), modV2, "Options", "ZeroLengthSectionAsEOF"):
-			bad = "argument 5 (zeroLenAsEOF) is not Options.ZeroLengthSectionAsEOF"
-		case !loadsField(canon(a[5]), modV2, "Options", "MaxAllowedSectionSize"):
-			bad = "argument 6 is not Options.MaxAllowedSectionSize"
-		}
-		if bad == "" {
-			if _, ok := constBool(a[6]); !ok {
-				bad = "argument 7 (readBytes) is not a constant"
-			}
-		}
-		if bad == "" {
-			// key: the method's key parameter, or the CID cast from it
-			okKey := false
-			for _, o := range origins(a[2], originOpts{}) {
-				if o.Kind == "param" || (o.Kind == "call" && funcIs(o.Fn, pkgCid, "", "Cast")) {
-					okKey = true
+		reaches := len(callsToFunc(fn, pkgStore, "", "FindCid")) > 0
+		eachInstr(fn, func(in ssa.Instruction) {
+			if ci, ok := in.(ssa.CallInstruction); ok {
+				if h := ci.Common().StaticCallee(); h != nil && h.Blocks != nil && h.Pkg == fn.Pkg && len(callsToFunc(h, pkgStore, "", "FindCid")) > 0 {
+					reaches = true
 				}
 			}
-			if !okKey {
-				bad = "argument 3 is not the key being looked up"
-			}
-		}
-		r.Check(bad == "", key, c.Pos(calls[0].Pos()), "(backing, idx, key, UseWholeCIDs, ZeroLengthSectionAsEOF, MaxAllowedSectionSize, const)", bad)
+		})
+		r.Check(reaches, "lookup-uses-findcid@"+fnKey(fn), c.Pos(fn.Pos()), "answers through store.FindCid", "the lookup no longer goes through store.FindCid (the confirmed lookup)")
 	}
 }
 
@@ -437,4 +454,42 @@ func ruleR07d(c *Ctx, r *Report) {
 		}
 	}
 	r.Check(bad == "", key, c.Pos(g.Pos()), "each scanned section reaches the channel send before the next one is read", bad)
+}
+
+func ruleR07e(c *Ctx, r *Report) {
+	fn, err := c.Func(pkgBS, "", "NewReadOnly")
+	if err != nil {
+		r.InfraFail("%v", err)
+		return
+	}
+	key := "supplied-index-kept@" + fnKey(fn)
+	idxP := fn.Params[1]
+	isIdx := func(v ssa.Value) bool {
+		for _, l := range phiLeaves(v) {
+			if l == ssa.Value(idxP) {
+				return true
+			}
+		}
+		return canon(v) == ssa.Value(idxP)
+	}
+	absent := cmpNilEdges(fn, isIdx, true)
+	bad := ""
+	if len(absent) == 0 {
+		bad = "NewReadOnly never tests whether an index was supplied"
+	} else {
+		reachable := reach(fn, nil, edgeSet(absent))
+		eachInstr(fn, func(in ssa.Instruction) {
+			ci, ok := in.(*ssa.Call)
+			if !ok {
+				return
+			}
+			f := calleeFunc(ci.Common())
+			if funcIs(f, pkgIndex, "", "ReadFrom") || funcIs(f, pkgBS, "", "generateIndex") || funcIs(f, modV2, "", "GenerateIndex") || funcIs(f, modV2, "", "LoadIndex") {
+				if reachable[in.Block()] {
+					bad = fmt.Sprintf("%s at %s runs although the caller supplied an index: the supplied index is silently replaced", funcKey(f), c.Pos(in.Pos()))
+				}
+			}
+		})
+	}
+	r.Check(bad == "", key, c.Pos(fn.Pos()), "an index is read or generated only behind idx == nil", bad)
 }
